@@ -37,6 +37,9 @@ fn opt(args: &[String], name: &str) -> Option<String> {
 
 fn main() {
   let args: Vec<String> = std::env::args().collect();
+  if std::env::var("AGSIM_TRACE_GETRANDOM").is_ok() {
+    hashseam::enable_trace(true);
+  }
   if args.len() == 2 && args[1] == "selftest" {
     std::process::exit(selftest::main());
   }
